@@ -125,8 +125,7 @@ EXPORT errno_t _memcpy_s_chk(void *restrict dest, rsize_t dmax,
     if (srcbos == BOS_UNKNOWN) {
         BND_CHK_PTR_BOUNDS(src, slen);
     } else if (unlikely(slen > srcbos)) {
-        invoke_safe_mem_constraint_handler("memcpy_s: slen exceeds src",
-                                           (void *)src, EOVERFLOW);
+        handle_mem_error(dest, dmax, "memcpy_s: slen exceeds src", EOVERFLOW);
         return (RCNEGATE(EOVERFLOW));
     }
 
